@@ -21,10 +21,12 @@ import (
 	"os"
 	"path/filepath"
 	"strings"
+	"time"
 
 	"github.com/magisterquis/curlrevshell/lib/sstls"
 	"github.com/magisterquis/curlrevshell/verifx/ev"
 	"github.com/magisterquis/curlrevshell/verifx/hworld"
+	"github.com/magisterquis/curlrevshell/verifx/rcall"
 	"github.com/magisterquis/curlrevshell/verifx/vos"
 )
 
@@ -106,7 +108,9 @@ func c08ListenHistories(r *ev.Result, base string) {
 					addr = "127.0.0.1:http:s"
 				}
 				vos.Reset()
-				l, err := sstls.Listen("tcp", addr, "", 0, cache)
+				lres := rcall.Call(sstls.Listen, "tcp", addr, "", time.Duration(0), cache)
+				l, _ := lres[0].(sstls.Listener)
+				err := rcall.Err(lres)
 				where := fmt.Sprintf("start %d (%s)", si+1, op)
 				if nil == err {
 					if "listen" != op {
